@@ -292,7 +292,9 @@ pub fn flat(w: &mut World, p: &Profile) -> Plan {
             }
         }
         distinguished = Some(d);
-        max_yields = (3 * n as u32 + 4).min(80);
+        // mostly short runs; one run in twelve is consumed for more than two full turns of any 8-bit
+        // rotation counter (a scan offset kept in a narrow integer wraps only after 256 polls)
+        max_yields = if w.ch.draw("fair.long", 12) == 11 { 530 } else { (3 * n as u32 + 4).min(80) };
     }
     let cancel_at = if p.allow_cancel && w.ch.draw("cancel", 4) == 3 { Some(w.ch.draw("cancel.at", 6)) } else { None };
     Plan { shape: Shape::Flat { fam, cont, n }, leaves, cancel_at, max_yields, distinguished }
